@@ -84,7 +84,7 @@ let handle (line : string) : string =
   toks := split_ws line;
   match next () with
   | "SIM" ->
-      let n = next_nat () in let fuel = next_nat () in
+      let qsub = (next () = "1") in let n = next_nat () in let fuel = next_nat () in
       let mx = next_int () in
       let p = rd_program () in
       let w = rd_world () in
@@ -92,7 +92,7 @@ let handle (line : string) : string =
       let dflt = agent_ids p in
       let sched t = let k = int_of_nat t in
         if Array.length perms = 0 then dflt else perms.(k mod Array.length perms) in
-      let (res, evs) = simulate n fuel p w (if mx < 0 then None else Some (nat_of_int mx)) sched in
+      let (res, evs) = simulate qsub n fuel p w (if mx < 0 then None else Some (nat_of_int mx)) sched in
       Printf.sprintf "{\"kind\":\"%s\",\"time\":%s,\"traj\":%s,\"actions\":%s,\"events\":%s}"
         (kind_name res.r_kind) (i res.r_time) (i res.r_traj)
         (js_list js_acts res.r_actions) (js_list js_event evs)
